@@ -76,6 +76,10 @@ CHECKS = {
   "I/O-boundary schedule injection (plan readers with logged calls) + differential comparison against the one-read result; multi-call differential on one interpreter",
   "For inputs of all five entry points (programs with eexec sections and readstring data at every phase of the 512-byte refill, CMap files, fonts in all containers from both writers, AFM files, PFB streams, a quarter of them with content errors) the public call is repeated under delivery plans - single bytes, every two-chunk split position (all positions for small inputs, else around multiples of 512, the eexec start and every PFB header, plus random ones), seeded chunk sequences, data returned together with EOF, seekable sources for type1.Read - and the canonical result digest and error text must equal the one-read result; the reader log shows how many calls each plan produced. Generated programs are also cut at 1-5 token boundaries (including inside unfinished procedure bodies and around DSC lines) and fed through consecutive Execute calls of one interpreter: final state digest, NumOps and DSC must equal the single-call run.",
   "Programs containing `stop` are excluded from the multi-call clause (stop ends the whole program of one call but only one call of several)."),
+ "C13": ("fault_enumeration", "DESIGN.md 11/C13",
+  "I/O-boundary fault injection: every read offset, every prefix, every write-call index and byte offsets, with delivery of each fault logged",
+  "For each input file of the five entry points a read fault is injected after every byte offset 0..len, as an error alone and as an error returned together with the last good bytes (for the latter a companion run with the same bytes and a clean end decides whether the library ever runs out of the delivered data), plus failing Seek calls for type1.Read; every prefix of font and CMap files is read and must give an error or the result of the whole file. For each font and metrics value and each output (Font.Write in four formats, WritePDF, Metrics.Write) a counting pass measures the write calls and bytes, then every call index fails (one-shot and sticky) and short writes are injected at byte offsets. A fault that reached the library must come back as a non-nil error; a panic is a violation.",
+  "Faults the library never asked for (it had legitimately stopped reading: stop, end marker) are counted separately and assert nothing. Quick tier strides the short-write offsets beyond 2 KiB (every offset in thorough)."),
 }
 
 NOT_CLAIMED = {}
